@@ -16,6 +16,7 @@ import (
 	"google.golang.org/grpc/codes"
 	"google.golang.org/grpc/metadata"
 	"google.golang.org/grpc/status"
+	"google.golang.org/protobuf/proto"
 	"pgregory.net/rapid"
 
 	"github.com/temporalio/s2s-proxy/config"
@@ -60,6 +61,7 @@ type c15Case struct {
 	AllowedAdmin []string `json:"allowed_admin"` // empty = unrestricted
 	Bypass       bool     `json:"bypass"`
 	IntraMarker  bool     `json:"intra_marker,omitempty"` // the caller also sets the intra-proxy marker headers
+	WithNS       bool     `json:"with_ns,omitempty"`      // the policy also lists allowed namespaces; requests name only allowed ones
 	Transport    string   `json:"transport"` // "tcp" | "mux-server" | "mux-client"
 }
 
@@ -80,6 +82,9 @@ func c15Run(c c15Case) (denied, allowed int, err error) {
 	edit := func(cfg *config.ClusterConnConfig) {
 		if c.Policy {
 			cfg.ACLPolicy = &config.ACLPolicy{AllowedMethods: config.AllowedMethods{AdminService: c.AllowedAdmin}}
+			if c.WithNS {
+				cfg.ACLPolicy.AllowedNamespaces = []string{"allowed-ns"}
+			}
 		}
 	}
 	var w *vfWorld
@@ -115,7 +120,12 @@ func c15Run(c c15Case) (denied, allowed int, err error) {
 	for _, m := range vfshared.Methods() {
 		w.local.Take()
 		w.remote.Take()
-		_, callErr := vfInvoke(w.inbound, m, nil, baseMD(m))
+		var req proto.Message
+		if c.WithNS && !(m.ClientStream || m.ServerStream) {
+			req = vfshared.NewMessage(m.In)
+			vfshared.FillEmptyNamespaces(req.ProtoReflect(), "allowed-ns")
+		}
+		_, callErr := vfInvoke(w.inbound, m, req, baseMD(m))
 		seen := w.local.Take()
 		leaked := w.remote.Take()
 		if len(leaked) != 0 {
@@ -153,6 +163,13 @@ func c15Run(c c15Case) (denied, allowed int, err error) {
 			continue
 		}
 		allowed++
+		if c.WithNS {
+			// the namespace list has its own verdicts (C16); here only: a forwarded call arrives once
+			if n > 1 {
+				return denied, allowed, fmt.Errorf("policy %v (+namespaces): method %s seen %d times by the local cluster", c.AllowedAdmin, m.Name, n)
+			}
+			continue
+		}
 		if status.Code(callErr) == codes.PermissionDenied {
 			return denied, allowed, fmt.Errorf("policy %v (transport %s, bypass=%v): allowed method %s was refused: %v", c.AllowedAdmin, c.Transport, c.Bypass, m.Name, callErr)
 		}
@@ -192,7 +209,7 @@ func c15Fail(t interface{ Fatalf(string, ...any) }, st *vfshared.Stats, part str
 	t.Fatalf("C15 violated: %v (replay %s)", err, p)
 }
 
-const c15Rule = "configurations = (policy present?, admin allow-list drawn from the 45 AdminService methods incl. empty=unrestricted / singletons / random subsets / full set, translation-bypass header on/off, intra-proxy marker headers on/off, transport of the remote-facing server tcp / mux-server / mux-client) assembled by the real NewClusterConnection on loopback with a recording fake cluster on each side; every one of the 154 methods of both services (unary and streaming) is invoked by full name from the remote side and from the local side; oracle: refused <=> PermissionDenied and fake saw nothing; allowed <=> fake saw exactly that call once; local side never refused; non-trivial = configuration with a policy in which some methods are refused and some forwarded; distinct = distinct configurations; evaluations = method invocations"
+const c15Rule = "configurations = (policy present?, admin allow-list drawn from the 45 AdminService methods incl. empty=unrestricted / singletons / random subsets / full set, translation-bypass header on/off, intra-proxy marker headers on/off, policy with or without an additional namespace allow-list (requests then name only allowed namespaces), transport of the remote-facing server tcp / mux-server / mux-client) assembled by the real NewClusterConnection on loopback with a recording fake cluster on each side; every one of the 154 methods of both services (unary and streaming) is invoked by full name from the remote side and from the local side; oracle: refused <=> PermissionDenied and fake saw nothing; allowed <=> fake saw exactly that call once; local side never refused; non-trivial = configuration with a policy in which some methods are refused and some forwarded; distinct = distinct configurations; evaluations = method invocations"
 
 func TestVF_C15_Wiring(t *testing.T) {
 	const part = "wiring"
@@ -213,6 +230,9 @@ func TestVF_C15_Wiring(t *testing.T) {
 		}
 		if c.IntraMarker {
 			cl = append(cl, "intra_proxy_marker")
+		}
+		if c.WithNS {
+			cl = append(cl, "policy_also_lists_namespaces")
 		}
 		if !c.Policy {
 			cl = append(cl, "no_policy")
@@ -245,6 +265,7 @@ func TestVF_C15_Wiring(t *testing.T) {
 		{Policy: true, AllowedAdmin: []string{"StreamWorkflowReplicationMessages"}, Transport: "tcp"},
 		{Policy: true, AllowedAdmin: []string{"DescribeCluster"}, Transport: "mux-server", Bypass: true},
 		{Policy: true, AllowedAdmin: []string{"DescribeCluster"}, Transport: "tcp", IntraMarker: true},
+		{Policy: true, AllowedAdmin: []string{"DescribeCluster"}, Transport: "tcp", WithNS: true},
 		{Policy: true, AllowedAdmin: []string{"StreamWorkflowReplicationMessages", "AddOrUpdateRemoteCluster"}, Transport: "mux-client"},
 	}
 	for _, c := range fixed {
@@ -255,6 +276,7 @@ func TestVF_C15_Wiring(t *testing.T) {
 		c.Transport = rapid.SampledFrom([]string{"tcp", "tcp", "mux-server", "mux-client"}).Draw(rt, "transport")
 		c.Bypass = rapid.Bool().Draw(rt, "bypass")
 		c.IntraMarker = rapid.IntRange(0, 2).Draw(rt, "intra") == 0
+		c.WithNS = c.Policy && rapid.IntRange(0, 2).Draw(rt, "withNS") == 0
 		switch rapid.IntRange(0, 3).Draw(rt, "listKind") {
 		case 0:
 			c.AllowedAdmin = []string{rapid.SampledFrom(admin).Draw(rt, "single")}
